@@ -25,7 +25,7 @@ def replay(case):
     elif case["kind"] == "whole":
         r = _with_dt(case["dt"], "run_whole", case["start"], case["stop"], case["collect"], case["npop"])
     else:
-        r = _with_dt(case["dt"], "run_single_steps", case["stop"], case["nsteps"], case["npop"])
+        r = _with_dt(case["dt"], "run_single_steps", case["stop"], case["nsteps"], case["npop"], [None, True, False][case.get("collect") or 0])
     return (r is not None), "%s: %s" % (case, r or "call log equals the reference log")
 
 
@@ -89,8 +89,8 @@ def run(tier):
                 why = _with_dt(dt, "run_with_deletion", case["stop"], case["npop"], case["deleter"], case["victim"], case["whenstep"] * dt)
             else:
                 case = {"kind": "single", "dt": dt, "stop": a.get("stop", a.get("_pos0")), "nsteps": a.get("nsteps", a.get("_pos1")),
-                        "npop": a.get("npop", a.get("_pos2"))}
-                why = _with_dt(dt, "run_single_steps", case["stop"], case["nsteps"], case["npop"])
+                        "npop": a.get("npop", a.get("_pos2")), "collect": a.get("collect", a.get("_pos3", 0))}
+                why = _with_dt(dt, "run_single_steps", case["stop"], case["nsteps"], case["npop"], [None, True, False][case["collect"] or 0])
             rep.candidate(_sig(kind, dt, why), case, "%s %s: %s" % (label, case, why))
         else:
             chx.unfinished(rep, label, r, req)
